@@ -1292,3 +1292,19 @@ def _then_some(m, a, c):
     if is_sym(b):
         return Term("then_some", b, a[1])
     return some(a[1]) if b else NONE
+
+
+def _arith(op):
+    def h(m, a, c):
+        x, y = deref(a[0]), deref(a[1])
+        if isinstance(x, Adt) or isinstance(y, Adt):
+            return NOT_HANDLED
+        st = (c.get("self_ty") or "usize").lstrip("&").strip()
+        return m.binop(op, x, y, st)
+    return h
+
+
+for _tr, _nm, _op in (("std::ops::Add", "add", "Add"), ("std::ops::Sub", "sub", "Sub"), ("std::ops::Mul", "mul", "Mul"),
+                      ("std::ops::Div", "div", "Div"), ("std::ops::Rem", "rem", "Rem"),
+                      ("std::ops::BitAnd", "bitand", "BitAnd"), ("std::ops::BitOr", "bitor", "BitOr")):
+    TRAIT_TABLE[(_tr, _nm)] = _arith(_op)
